@@ -35,20 +35,31 @@ def run(ctx):
                label="deviation wrapmul: uint32(Start*1024)")
     ctx.tlc_mc(fam, "BitmapCodec", "BitmapCodec_MC_bug2.cfg", workers=1, expect_violation="Conforms",
                label="deviation swapdir: U32BitTip GetN/RGetN dispatch inverted")
-    ctx.tlc_mc(fam, "BitmapCodec", "BitmapCodec_MC_bug3.cfg", workers=1, expect_violation="Conforms",
-               label="deviation le64: sparse encoding for n <= 64")
-    ctx.tlc_mc(fam, "BitmapCodec", "BitmapCodec_MC_bug4.cfg", workers=1, expect_violation="Conforms",
-               label="deviation norange: no range check in sparse decode")
+    if ctx.thorough:
+        ctx.tlc_mc(fam, "BitmapCodec", "BitmapCodec_MC_bug3.cfg", workers=1, expect_violation="Conforms",
+                   label="deviation le64: sparse encoding for n <= 64")
+        ctx.tlc_mc(fam, "BitmapCodec", "BitmapCodec_MC_bug4.cfg", workers=1, expect_violation="Conforms",
+                   label="deviation norange: no range check in sparse decode")
     # 2. plans out of the spec (real geometry, boundary integers)
     pdir, plans = ctx.tlc_plans(fam, "BitmapCodec_Gen", "BitmapCodec_Gen.cfg", num=ctx.q(80, 1200), depth=13,
                                 timeout=1500)
     # 3. execute on the real code
     binary = ctx.go_build("c09")
     out = ctx.path("codec.ndjson")
+    # cold starts: a fresh process whose first use of the package is a concurrent read round
+    cold = []
+    for i in range(ctx.q(6, 40)):
+        cf = ctx.path("cold%d.ndjson" % i)
+        ctx.harness(binary, ["-cold", "-out", cf, "-seed", ctx.seed * 100 + i], traces=[cf])
+        cold.append(cf)
     ctx.harness(binary, ["-plans", pdir, "-out", out, "-seed", ctx.seed, "-roundtrips", ctx.q(30, 600),
-                         "-perlen", ctx.q(2, 12), "-blocks", ctx.q(30, 600)], traces=[out])
+                         "-perlen", ctx.q(2, 12), "-blocks", ctx.q(30, 600), "-race", ctx.q(10, 150)],
+                traces=[out])
     # 4. validate
-    traces = ctx.load_traces(out)
+    traces = []
+    for cf in cold:
+        traces += ctx.load_traces(cf)
+    traces += ctx.load_traces(out)
     rj = ctx.validate(fam, "BitmapCodec_Trace", "BitmapCodec_Trace.cfg", traces, label="codec",
                       chunk=ctx.q(20000, 15000), timeout=1800)
     ctx.judge(rj)
